@@ -462,19 +462,22 @@ def interrupted_creation_is_recoverable(ctx, rid):
         if not bs:
             continue
         t_t, f_t = bs[0], bs[1]
+        rets = ba.returns()
+        if any(ba.path([x], rets, incl=True) is None for x in (t_t, f_t)):
+            continue        # an assertion (one side only panics) is not a decision
         for side in (t_t, f_t):
             if all(ba.edge_dominates((sw, side), c) for c in creates):
                 guards.append((sw, side))
     if not guards:
         raise AnchorError("no boolean test separates the schema-creating statements of %s" % I.key)
-    sw = max(guards, key=lambda g: g[0])[0] if len(guards) > 1 else guards[0][0]
     # closest guard = the one dominated by all the others
-    for g, _ in guards:
+    sw, side = guards[0]
+    for g, sd in guards:
         if all(ba.dominates(o, g) for o, _ in guards):
-            sw = g
+            sw, side = g, sd
     d = op_local(I.blocks[sw]["term"]["discr"])
     queries = [i for i in ba.all_calls() if any(re.fullmatch(r"rusqlite::(Connection|Transaction|Statement)(<.*>)?::(query_row|query|query_map|exists|prepare|pragma_query_value|query_row_and_then)|rusqlite::Connection::query_row", p) for p in callee_paths(I.blocks[i]["term"]))
-               and ba.path([i], [sw], incl=False) is not None and not any(ba.edge_dominates(g, i) for g in guards)]
+               and ba.path([i], [sw], incl=False) is not None and not ba.edge_dominates((sw, side), i)]
     tnt = taint(I, seeds={I.blocks[i]["term"]["dest"]["l"] for i in queries}, mode="derived") if queries else set()
     chain = set(ba.ref_chain(d)) | {d}
     # follow plain copies / negations of the tested local back
